@@ -464,6 +464,16 @@ func makeErr(shape, given string) error {
 		return &os.PathError{Op: "open", Path: "/x", Err: syscall.Errno(n)}
 	case "join":
 		return errors.Join(errors.New("first"), le)
+	case "join-syscall":
+		return errors.Join(errors.New("first"), syscall.Errno(n))
+	case "join-patherror":
+		return errors.Join(fmt.Errorf("file: %w", &os.PathError{Op: "close", Path: "/x", Err: syscall.Errno(n)}))
+	case "multiw":
+		return fmt.Errorf("%w (cleanup: %w)", &os.LinkError{Op: "rename", Old: "a", New: "b", Err: syscall.Errno(n)}, errors.New("cleanup failed"))
+	case "multiw-second":
+		return fmt.Errorf("%w: %w", errors.New("context"), syscall.Errno(n))
+	case "syscallerror":
+		return os.NewSyscallError("fsync", syscall.Errno(n))
 	case "os.ErrNotExist":
 		return fmt.Errorf("x: %w", os.ErrNotExist)
 	case "os.ErrExist":
